@@ -1,6 +1,7 @@
 """C10 — []byte type variants behave like string variants (DESIGN.md §4 C10); TL1 part."""
 from checks import codec_common as cc
 
+LEVEL = "translation_validation"
 MODULES = []
 THEOREMS = []
 
